@@ -23,7 +23,8 @@ WALL_CAP = {"quick": 120, "thorough": 3000}
 RULE = ("one case = one generated history (8-45 ops) of enable/disable requests (private events, direct calls, "
         "bursts of both inside one tick), sw_flip/sw_release, cabinet button / EOS switch activity, autofire "
         "switch storms, start button, drains, tilt warnings / tilt / slam tilt, service enter / exit, forced and "
-        "natural ball search, end_ball / end_game events, placed at relative times or exactly on (+-1 ms) a "
+        "natural ball search, end_ball / end_game events, stimuli armed to fire right after a named MPF event was posted "
+        "(service / tilt / drain / requests racing with ball_starting, ball_will_end, mode_game_stopping, ...), placed at relative times or exactly on (+-1 ms) a "
         "pending loop timer, on a per-run configuration (EOS repulse on/off, timeout protection parameters, "
         "kickback self-disable, ball search on/off and hold time, tilt settle time, balls per game) under a "
         "seeded scheduler (stalls, same-instant tie permutations); non-trivial = reached at least one reach "
@@ -33,7 +34,7 @@ PROBES = ["enable_while_enabled", "disable_while_disabled", "enable_and_disable_
           "op_on_timer", "ball_search_started", "ball_search_flip", "tilt", "slam_tilt", "service_entered",
           "service_in_game", "game_ended", "lifecycle_disable_with_rules", "eos_repulse",
           "disable_with_button_held", "disable_with_repulse_hold", "kickback_fired", "ball_started_enable",
-          "rules_checked_nonempty", "outside_play_checked", "final_clean_checked"]
+          "rules_checked_nonempty", "outside_play_checked", "reaction_fired", "final_clean_checked"]
 REAL = ["mpf.devices.flipper.Flipper", "mpf.devices.autofire.AutofireCoil", "mpf.devices.kickback.Kickback",
         "mpf.core.platform_controller.PlatformController + SoftwareEosRepulseManager",
         "mpf.core.switch_controller.SwitchController", "mpf.devices.driver.Driver", "mpf.core.ball_search.BallSearch",
@@ -73,6 +74,9 @@ KICKBACKS = {"k1": {"coil": "c_k1", "sw": "s_k1", "delay": False}}
 DEVS = list(FLIPPERS) + list(AUTOFIRES) + list(KICKBACKS)
 BALL_STARTED_DEVS = list(FLIPPERS) + list(AUTOFIRES)      # stock enable event; kickbacks have none
 HIT_SWITCHES = ["s_a1", "s_a2", "s_a3", "s_a4", "s_k1"]
+REACT_EVENTS = ["ball_will_start", "ball_starting", "ball_ended", "player_turn_started", "game_started",
+                "ball_will_end", "ball_ending", "tilt", "tilt_clear", "service_mode_entered", "mode_game_stopping",
+                "ball_search_started"]
 
 
 def expected_rules(dev, cfg):
@@ -114,8 +118,19 @@ def _gen_op(ch):
     kind = ch.weighted("op", [
         ("burst", 10), ("btn", 4), ("eos", 2), ("cradle", 3), ("hit", 3), ("storm", 3), ("start", 4), ("drain", 3),
         ("tilt_warning", 1.5), ("tilt", 1.5), ("slam_tilt", 0.7), ("service", 2), ("bs_start", 1.5),
-        ("pf_switch", 1), ("end_ball", 0.7), ("end_game", 0.7), ("wait", 1)])
+        ("pf_switch", 1), ("end_ball", 0.7), ("end_game", 0.7), ("wait", 1), ("react", 5)])
     op = {"op": kind}
+    if kind == "react":
+        # a stimulus that coincides with a state change inside MPF: armed now, fires (once) in the loop iteration
+        # after the named event has been posted (or 1 ms later)
+        op["on"] = ch.pick("ron", REACT_EVENTS)
+        op["delay"] = ch.pick("rdelay", [0.0, 0.0, 0.001])
+        inner = ch.weighted("rdo", [("service", 5), ("tilt", 2), ("slam_tilt", 1), ("start", 1), ("drain", 2),
+                                    ("end_game", 1), ("end_ball", 1), ("burst", 4)])
+        op["do"] = {"op": inner}
+        if inner == "burst":
+            op["do"]["acts"] = [_gen_action(ch) for _ in range(1 + ch.choice("rnb", 2))]
+        return op
     if kind == "burst":
         n = ch.weighted("nburst", [(1, 5), (2, 3), (3, 2), (4, 1)])
         op["acts"] = [_gen_action(ch) for _ in range(n)]
@@ -409,6 +424,22 @@ def execute(ctx, plan):
     if os.environ.get("C10_DEBUG"):        # developer aid: trace every posted event (never on in normal runs)
         from sim.tap import tap_events
         tap_events(sim, lambda name, ev_type, cb, kw: ctx.log("dbg", name, ev_type, t=loop.time()))
+
+    reactions = []
+
+    def on_posted(name, ev_type, cb, kw):
+        # observation only: arm the stimulus, it runs as an ordinary loop callback after the post
+        for r in list(reactions):
+            if r[0] == name:
+                reactions.remove(r)
+                ctx.probe("reaction_fired")
+                ctx.log("react", name, r[1]["op"], t=loop.time())
+                if r[2] > 0:
+                    sim.after(r[2], do_op, r[1])
+                else:
+                    loop.call_soon(do_op, r[1])
+    from sim.tap import tap_events as _tap
+    _tap(sim, on_posted)
 
     phase = {"ball": False}
     world = {"btn": {f: False for f in FLIPPERS}, "eos": {f: False for f in FLIPPERS}}
@@ -778,6 +809,8 @@ def execute(ctx, plan):
         elif kind == "pf_switch":
             hit("s_playfield", 1)
             hit("s_playfield", 0)
+        elif kind == "react":
+            reactions.append((op["on"], op["do"], op["delay"]))
         elif kind == "end_ball":
             sim.post("end_ball")
         elif kind == "end_game":
@@ -841,6 +874,7 @@ def execute(ctx, plan):
         if guard > 600:
             raise AssertionError("op chain did not finish")
     # ---- settle, then walk the machine into "no game" and require a clean platform ---------------------
+    del reactions[:]
     sim.run_quiet(1.0)
     check("settled")
 
